@@ -183,6 +183,17 @@ def gen_c16(tier, rng):
         s.append(conc.Scn("g%d" % i, kind, words, ths, m, {"maxcells": rng.choice([4, 8]), "maxsteps": 30000}))
     return s
 
+def fine_c19_adder(tier, rng):
+    """statement-level interleavings (monitors only): what a call does to the value AFTER it has released the lock"""
+    s = []
+    for i in range(scale(tier, 16, 120)):
+        nt = rng.choice([2, 3])
+        ths = [script(rng, rng.choice([1, 2, 3]), [], "mutexadd") for _ in range(nt)]
+        if i % 2 == 0:   # SumAndReset / Store / Reset overlapping on a non-zero value (no phases: judged as one linearizable number)
+            ths = [["w7", rng.choice(["q", "q", "s"])]] + [[rng.choice(["q", "q", "w3", "r", "a5"])] for _ in range(nt - 1)]
+        s.append(conc.Scn("fx%d" % i, "mutexadd", [], ths, "rand %d %d" % (scale(tier, 300, 3000), rng.randint(1, 1 << 30))))
+    return s
+
 def gen_c19_adder(tier, rng):
     s = []
     for i in range(scale(tier, 24, 200)):
